@@ -134,7 +134,7 @@ def run(ctx, b, drv):
             mm.append(streams.Mismatch('histories-vs-model', 0, dict(version=v, steps=hist), ser, o))
     # a diff-parsed tree that differs from the model's fresh parse (while the implementation's fresh parse agreed) is a violation with the history as replay
     for m in mm[:5]:
-        ctx.violation('C04:tree-differs-from-model-fresh-parse', dict(kind='history', **m.replay()))
+        ctx.violation('C04:tree-differs-from-model-fresh-parse', dict(m.replay(), kind='history'))
     ctx.cov['programs'] = n
     pend.flush()
     ctx.cov['rule'] = ('edit histories of 4-8 texts (line delete/duplicate/insert, in-line fragment splice, re-indent, join lines, block delete, undo) over valid/corpus/one-liner '
